@@ -32,9 +32,11 @@ BAL_SKIP = {"sexp_apply": "the VM loop registers self/tmp1/tmp2 once and release
             "sexp_update_string_index_lookup": "not compiled in the default configuration (SEXP_USE_STRING_INDEX_TABLE off)",
             "sexp_user_exception_ls": "variadic: no harness generated",
             "generate_tail_jump": "not compiled in the default configuration",
+            **{f: "recursive and large: the instance did not finish within 30 minutes / 5 GB in the thorough tier (not under contract)" for f in
+               ("sexp_write_one", "sexp_read_number", "sexp_read_raw", "analyze_lambda", "analyze", "sexp_free_vars", "sexp_quotient", "sexp_compare", "sexp_merge_sort_less")},
             "sexp_init_library": "library initialisation entry point (takes the ABI identifier, an array type, by value); runs once at load time"}
 BAL_UNWIND = {"sexp_init_context_globals": 64, "sexp_make_null_env_op": 40}      # runs fixed-count initialisation loops to their end before it returns
-BAL_SLOW = {"sexp_write_one", "sexp_read_number", "sexp_read_raw", "sexp_init_context_globals", "sexp_strip_synclos_bound", "analyze_lambda", "analyze", "sexp_free_vars", "sexp_quotient", "sexp_compare", "sexp_merge_sort_less"}      # thorough tier only
+BAL_SLOW = {"sexp_init_context_globals", "sexp_strip_synclos_bound"}      # thorough tier only
 
 
 def prepare(tier):
@@ -92,7 +94,8 @@ META = {
                   "vlib/vmextract.py opcode extraction (re-creates sexp_apply's root registration of self/tmp1/tmp2 around each body)"],
  "assumptions": ["arguments are caller-rooted", "reachability is exact for the tracked object kinds (bignums hold no references; pairs and the two continuation vectors are traced)",
                  "a reclaimed object is detected by consequence: its storage becomes arbitrary, so a later use breaks a safety or functional obligation, and returning it breaks gc.result_live"],
- "not_covered": ["gc_balance decides only that every function leaves the save chain as it found it (no dangling or dropped registration); whether each live local IS registered at every allocation is decided only for the functions of the adversarial-collector groups",
+ "not_covered": ["gc_balance skips (with reasons, BAL_SKIP in groups/C02.py): sexp_apply, sexp_write_one, sexp_read_number, sexp_read_raw, analyze, analyze_lambda, sexp_free_vars, sexp_quotient, sexp_compare, sexp_merge_sort_less, variadic and library-initialisation functions",
+                 "gc_balance decides only that every function leaves the save chain as it found it (no dangling or dropped registration); whether each live local IS registered at every allocation is decided only for the functions of the adversarial-collector groups",
                  "the collector itself (mark phase) - see C10 / C16 for sweep, allocation and the weak pass", "allocating functions not listed under functions_under_contract (most of bignum.c beyond fxmul/add_fixnum/add_digits/sub_digits incl. Karatsuba sexp_bignum_mul with its 7 preserved variables, quot_rem, expt, sqrt; sexp.c constructors; eval.c; hash.c; qsort.c; json.c; port.c)",
                  "the reader and the compiler (sexp_read_raw, generate_* literal preservation)", "generated FFI stubs", "Scheme-level code"],
 }
